@@ -286,7 +286,7 @@ def check(ctx):
                 out.add(re.sub(r"\|default\([^)]*\)", "", m.group(1)))
         return out
     def decl_names(name):
-        ps = T.paths(name) or []
+        ps = T.paths_in_context(name) or []
         out = set()
         for p in ps:
             if not consistent(p.conds):
@@ -314,7 +314,9 @@ def check(ctx):
         r2.bad(V(r2.id, "zod/partials/type_aliases.ts.tera", "channel-keys:%s≠%s" % (sorted(cb), sorted(ca)), "channel keys differ: plain %s, zod %s" % (sorted(ca), sorted(cb))))
     na = decl_names("typescript/partials/interface.tera") | decl_names("typescript/partials/enum.tera")
     nb = decl_names("zod/partials/schema.ts.tera")
-    if "⟦name⟧" in na and {"⟦name⟧Schema", "⟦name⟧"} <= nb:
+    # plain mode declares inside `for struct in structs` (the partial sees `struct.name`, directly or through a `set`); the Zod partial is rendered from
+    # Rust once per struct with the key `name`
+    if "⟦struct.name⟧" in na and {"⟦name⟧Schema", "⟦name⟧"} <= nb:
         r2.ok("struct names: interface ⟦name⟧ ↔ const ⟦name⟧Schema + type ⟦name⟧")
     else:
         r2.bad(V(r2.id, "zod/partials/schema.ts.tera", "struct-names:%s" % sorted(nb), "struct declarations differ: plain %s, zod %s" % (sorted(na), sorted(nb))))
